@@ -497,6 +497,9 @@ class Connection(object):
         return self.async_request(handler, *args, timeout=timeout).value
 
     def _async_request(self, handler, args=(), callback=(lambda a, b: None)):  # serving
+        if self._channel.closed:
+            # nothing may be lent through a connection that can no longer deliver it: it would never be released
+            raise EOFError("connection closed")
         seq = self._get_seq_id()
         self._request_callbacks[seq] = callback
         try:
